@@ -10,9 +10,10 @@ Open Scope Z_scope.
     running any thunk and without touching the state *)
 Lemma cancelled_stops_immediately :
   forall f p rest st,
+    is_fuel_err p = false ->      (* p is a promise of the code, not the model's out-of-fuel marker *)
     s_polls st = Some O ->
     force (S f) (p :: rest) st = (FError ECancelled, st).
-Proof. intros f p rest st H. cbn [force]. rewrite H. reflexivity. Qed.
+Proof. intros f p rest st Hp H. cbn [force]. rewrite Hp, H. reflexivity. Qed.
 
 (** every iteration that runs a thunk consumes one poll: with n polls left, at
     most n thunks are run by this trampoline before it reports cancellation
